@@ -1040,7 +1040,7 @@ func runC17(cfg *runCfg) error {
 		mm := 1
 		for k := 0; k < 2; k++ {
 			ep := c17Epoch{AtDial: next(1 + 5*k), AtOpt: next(2 + 5*k), AtConn: next(3 + 5*k), SendFirst: mask%2 == 0}
-			if k == 1 && mask%5 == 0 {
+			if k == 1 && (mask&0x7F == 0 || mask%5 == 0) {
 				ep.DialH = 91 // the dialer leaves its own handler on the second client: Connect must replace it
 			}
 			ep.Burst = []c17Label{{Op: "ib", K: k, M: mm, Q: 0}, {Op: "ib", K: k, M: mm + 1, Q: 1}}
